@@ -262,6 +262,18 @@ func runCheck(o checkOpts) int {
 					isKnown = true // another property's obligation: decided there
 				}
 			}
+			if r != nil && len(r.Ob.Tags) == 0 && o.prop != "ALL" {
+				// untagged obligation of a function whose props line does not name this property
+				rel := false
+				for _, p := range rep.Fx.ct.Props {
+					if p == o.prop {
+						rel = true
+					}
+				}
+				if !rel {
+					isKnown = true
+				}
+			}
 			if r != nil && r.Ob.AltGrp != "" {
 				isKnown = true // alternatives are expected to fail except one
 			}
